@@ -167,3 +167,83 @@ def rule_d_ext(ctx):
             R.viol("%s:no-insert" % b.path, b.where(Loc(0, 0)), "%s does not hand its elements to insert or to another bulk insertion" % b.path)
     R.floor(4, "bulk insertions")
     return R
+
+
+# ---------------------------------------------------------------------------------------------------------------------
+# D-map: the map's own one-line operations really perform the split-table operation they stand for
+# ---------------------------------------------------------------------------------------------------------------------
+D_MAP_TABLE = {
+    # API function: name(s) of the operation that must be reached on every path (a method of the split table, or of the map itself
+    # that in turn is in this table), applied to (part of) self
+    "HashMap::clear": ("clear",),
+    "HashMap::reserve": ("reserve",),
+    "HashMap::try_reserve": ("try_reserve",),
+    "HashMap::shrink_to": ("shrink_to",),
+    "HashMap::shrink_to_fit": ("shrink_to", "shrink_to_fit"),
+    "HashMap::drain": ("drain",),
+    "HashMap::remove_entry": ("remove_entry",),
+    "HashMap::remove": ("remove_entry", "remove"),
+}
+
+
+def rule_d_map(ctx):
+    R = RuleResult("D-map", "the map's delegating operations perform the split-table operation they stand for on every path (clear, reserve, try_reserve, shrink_to, "
+                   "shrink_to_fit, drain, remove, remove_entry: a frozen table read off the tree); every `insert*` operation of the map and of its entry handles "
+                   "moves the value it is given into the table (or hands it back) on every path — it is never just dropped")
+    from rules_cost import entry_points
+    from rules_typestate import _must_pass
+    T = ctx.facts.types
+    eps = entry_points(ctx)
+    n = 0
+    for api, names in D_MAP_TABLE.items():
+        b = eps.get(api)
+        if b is None:
+            R.anchor("entry:%s" % api, "entry point %s no longer exists" % api)
+            continue
+        n += 1
+        done = set()
+        for bd in [b]:
+            for c in ctx.calls(bd):
+                lc = c.local_callee()
+                if lc is None or lc.kind == "Closure" or bd.is_cleanup(c.loc.bb) or lc.name not in names or lc.path == b.path:
+                    continue
+                p = c.arg_path(0)
+                if p is not None and p.strip_refs().root == 1:
+                    done.add(c.loc.bb)
+        w = _must_pass(b, [0], done, set()) if done else [0]
+        R.inst(api=api, fn=b.path, performs=list(names), verdict="ok" if w is None else "VIOLATION")
+        if w is not None:
+            R.viol("%s:not-performed" % api, b.where(Loc(w[-1], 0)), "%s can return (path %s) without applying %s to its own table: the operation does nothing there"
+                   % (api, " -> ".join("bb%d" % x for x in w), " / ".join(names)))
+    # insert*: the value goes somewhere
+    m = 0
+    for b in ctx.facts.bodies.values():
+        if b.kind == "Closure" or not b.name.startswith("insert") or not b.raw.get("exported") or not b.path.startswith(ctx.facts.crate + "::map"):
+            continue
+        for l in range(1, b.arg_count + 1):
+            t = T[b.locals[l]["ty"]]
+            if t.get("k") != "param" or t.get("name") != "V":
+                continue
+            m += 1
+            moved = set()
+            for bb in b.reachable():
+                if b.is_cleanup(bb):
+                    continue
+                for st in b.stmts(bb):
+                    if st["k"] == "assign":
+                        rv = st["rv"]
+                        ops = [rv.get("op"), rv.get("a"), rv.get("b")] + list(rv.get("ops", []))
+                        if any(isinstance(o, dict) and o.get("k") == "move" and o["place"]["local"] == l and not o["place"]["proj"] for o in ops):
+                            moved.add(bb)
+                tt = b.term(bb)
+                if tt["k"] == "call" and any(a["k"] == "move" and a["place"]["local"] == l and not a["place"]["proj"] for a in tt["args"]):
+                    moved.add(bb)
+            w = _must_pass(b, [0], moved, set())
+            R.inst(fn=b.path, value_parameter=b.local_name(l), verdict="ok" if w is None else "VIOLATION")
+            if w is not None:
+                R.viol("%s:value-dropped" % b.path, b.where(Loc(w[-1], 0)), "%s can return (path %s) without having moved its value argument anywhere: the value the caller "
+                       "asked to store is dropped" % (b.path, " -> ".join("bb%d" % x for x in w)))
+    R.floor(6, "delegating map operations")
+    if m < 5:
+        R.anchor("insert-ops", "expected >= 5 insert operations taking a value, found %d" % m)
+    return R
